@@ -1181,6 +1181,11 @@ mut("ok-tun-statics-to-consts", "benign", [], "the two `static mut` tunables bec
      ed(I, "static mut MANUAL_EVENTS_BETWEEN_COLLECT: usize = 64;", "const MANUAL_EVENTS_BETWEEN_COLLECT: usize = 64;"),
      ed(I, "Bag(Vec::with_capacity(unsafe { MAX_OBJECTS }))", "Bag(Vec::with_capacity(MAX_OBJECTS))"),
      ed(I, "if manual_count % unsafe { MANUAL_EVENTS_BETWEEN_COLLECT } == 0 {", "if manual_count % MANUAL_EVENTS_BETWEEN_COLLECT == 0 {")])
+mut("list-stalled-resets-curr-only", "break", ["C18"], "on a stall the iterator reloads curr from the head but keeps the (marked) predecessor link",
+    [ed(LF, """                    self.pred = self.head;
+                    self.curr = self.head.load(Acquire, self.guard);
+""", """                    self.curr = self.head.load(Acquire, self.guard);
+""")], ["EBR-LIST"])
 mut("wrap-atomicepoch-cas-always-ok", "break", ["C13", "C14"], "AtomicEpoch::compare_exchange reports Ok on failure",
     [ed(EPF, "Err(data) => Err(Epoch { data }),", "Err(data) => Ok(Epoch { data }),")], ["WRAP-ATOMICS"])
 mut("wrap-defer-none-runs-now", "break", ["C01", "C02", "C13"], "Option<&Guard>::defer_with_inner runs f at once when no guard is given",
@@ -1830,6 +1835,50 @@ combo("R16-5-unpin-old-test", ["C13", "C16"], "unpin keeps the test of the OLD v
         if guard_count == 1 {""")], ["EBR-GUARD-COUNT"])
 combo("R16-3-restores-after-set", ["C15", "C20"], "finalize reads the value to restore after having written the temporary 1", "R16-3",
       [ed(I, "let saved_handle_count = self.handle_count.replace(1);", "self.handle_count.set(1);\n        let saved_handle_count = self.handle_count.get();")], ["EBR-FINALIZE-HANDOFF"])
+
+combo("R20-5-agrees-inverted", ["C13", "C18"], "the tuple match returns early on (true, true) and lets (true, false) pass", "R20-5",
+      [ed(I, "                (true, false) => return global_epoch,", "                (true, true) => return global_epoch,"),
+       ed(I, "                (false, _) | (true, true) => {}", "                (false, _) | (true, false) => {}")], ["EBR-ADVANCE"])
+combo("R20-2-returns-on-err", ["C17"], "the rotated loop of try_pop_if stops re-attempting after the first lost race", "R20-2",
+      [ed(QF2, """        while attempt.is_err() {
+            backoff.spin();
+            attempt = self.pop_if_internal(&condition, guard);
+        }""", """        if attempt.is_err() {
+            backoff.spin();
+            attempt = self.pop_if_internal(&condition, guard);
+        }""")], ["EBR-QUEUE"])
+combo("R20-3-retry-stale-successor", ["C18"], "the Option-driven insert loop retries with the successor it read first, not the observed one", "R20-3",
+      [ed(LF, """            pending = to
+                .compare_exchange_weak(next, entry_ptr, Release, Relaxed, guard)
+                .err();""", """            pending = to
+                .compare_exchange_weak(next, entry_ptr, Release, Relaxed, guard)
+                .err()
+                .map(|_| next);""")], ["EBR-LIST"])
+combo("R19-4-flag-inverted", ["C17", "C18"], "the re-wrap by flag is inverted: a successful CAS is reported as Err", "R19-4",
+      [ed(PT, """        if swapped {
+            Ok(observed)
+        } else {
+            Err(observed)
+        }
+    }
+
+    pub fn compare_exchange_weak""", """        if !swapped {
+            Ok(observed)
+        } else {
+            Err(observed)
+        }
+    }
+
+    pub fn compare_exchange_weak""")], ["WRAP-ATOMICS"])
+
+combo("R21-2-null-greater", ["C19"], "the spelled-out partial_cmp/cmp sort null AFTER every object", "R21-2",
+      [ed(S, """            (true, false) => Some(Less),
+            (false, true) => Some(Greater),""", """            (true, false) => Some(Greater),
+            (false, true) => Some(Less),""")], ["CMP-DELEGATE"])
+combo("R21-2-eq-null-any", ["C19"], "the spelled-out eq treats null as equal to anything", "R21-2",
+      [ed(S, "            (true, false) | (false, true) => false,", "            (true, false) | (false, true) => true,")], ["CMP-DELEGATE"])
+combo("R21-2-cmp-swapped", ["C19"], "the spelled-out cmp compares other with self for two objects", "R21-2",
+      [ed(S, "(false, false) => unsafe { self.deref().cmp(other.deref()) },", "(false, false) => unsafe { other.deref().cmp(self.deref()) },")], ["CMP-DELEGATE"])
 
 # behaviour-preserving refactorings written by sub-agents told to keep every interleaving's behaviour (selftest/refactors/)
 for f in sorted(glob.glob(os.path.join(HERE, "refactors", "*.diff"))):
